@@ -195,3 +195,24 @@ void harness(void) {
   VDONE();
 }
 #endif
+
+#if defined(H_ALLCODES)
+/* the code book container: m4ri_build_all_codes() provides a table for every k = 1..16 (the generator
+ * m4ri_build_code itself is checked per k by H_CODE; here it is replaced by an empty stub so that the
+ * 2^16-entry books need not be executed) and m4ri_destroy_all_codes() releases everything */
+void stub_build_code(int *ord, int *inc, int l) { (void)ord; (void)inc; (void)l; }
+void harness(void) {
+  m4ri_codebook = NULL;
+  m4ri_build_all_codes();
+  VASSERT(m4ri_codebook != NULL, "code book container allocated");
+  for (int k = 1; k <= __M4RI_MAXKAY; ++k) {
+    VASSERT(m4ri_codebook[k] != NULL, "a code book exists for every k = 1..16");
+    VASSERT(m4ri_codebook[k]->ord != NULL && m4ri_codebook[k]->inc != NULL, "both tables of book k are allocated");
+  }
+  VASSERT(__M4RI_MAXKAY == 16, "MAXKAY is 16");
+  m4ri_build_all_codes(); /* idempotent */
+  m4ri_destroy_all_codes();
+  VASSERT(m4ri_codebook == NULL, "destroy resets the container");
+  VDONE();
+}
+#endif
